@@ -48,6 +48,7 @@ HARNESS_FILES = {
     "source_drv.rs": ("src/source.rs", "verif_drv"),
     "bitrepr_sub.rs": ("src/component/bitrepr.rs", "verif_sub"),
     "bitrepr_c12.rs": ("src/component/bitrepr.rs", "verif_c12"),
+    "bitrepr_hdr.rs": ("src/component/bitrepr.rs", "verif_hdr"),
 }
 
 
